@@ -5,7 +5,7 @@
    The two defects of the code before those commits are machine-checked lemmas in Media/History.v.
    Source anchors (generated constants of component_media.py, `Example ..._anchor ... reflexivity`): Media/Anchors.v. *)
 From DJC Require Import Lib.Base Media.Model Media.Proofs Media.Complete Media.History.
-From DJC Require Import Media.Names Media.Forms Media.Dups Media.Mixins Media.Anchors.
+From DJC Require Import Media.Names Media.Forms Media.Dups Media.Mixins Media.Both Media.Anchors.
 
 (* Files: for every table, class, media type and BOTH variants, `Cls.media` holds each file once, and holds
    exactly the files declared by the class itself and, transitively, by the bases selected by Media.extend. *)
@@ -68,11 +68,21 @@ Theorem attr_none_when_undefined : forall t p m,
 Proof. exact nearest_defining_none. Qed.
 Print Assumptions attr_none_when_undefined.
 
-(* A component class defining both members of a pair is never created. *)
-Theorem both_members_rejected : forall t i cl p,
-  nth_error t i = Some cl -> c_comp cl = true -> pair_both (get_pair p cl) = true -> create_error t <> None.
-Proof. exact both_rejected. Qed.
+(* A component class defining both members of a pair is never created: EVERY two non-None values are rejected, whatever
+   they are - the empty string (inline code 0) and the empty path included (`is not None`, not truthiness) ... *)
+Theorem both_members_rejected : forall t i cl p v f,
+  nth_error t i = Some cl -> c_comp cl = true -> get_pair p cl = (Some v, Some f) -> create_error t <> None.
+Proof. exact both_rejected_values. Qed.
 Print Assumptions both_members_rejected.
+
+(* ... and exactly those: with a linearisable MRO, class creation fails with ImproperlyConfigured iff the class is a component
+   class and some pair has two non-None members; otherwise it succeeds (one member, the empty string alone, explicit None). *)
+Theorem both_members_exact : forall t i cl m, nth_error t i = Some cl -> mro_of t i = Some m ->
+  (class_error t i = Some EImproperlyConfigured <->
+   c_comp cl = true /\ exists p v f, get_pair p cl = (Some v, Some f)) /\
+  (class_error t i = None \/ class_error t i = Some EImproperlyConfigured).
+Proof. exact class_error_exact. Qed.
+Print Assumptions both_members_exact.
 
 (* Order with DUPLICATES inside declared lists (generalises order_consistent; a duplicate-free list is its own squash):
    adjacent repeats are harmless - if the declared lists with adjacent repeats squashed are all subsequences of one
